@@ -4,6 +4,7 @@ import (
 	"encoding/json"
 
 	"github.com/bmeg/grip/gdbi"
+	"github.com/bmeg/grip/verifhook"
 )
 
 func MarshalStream(inPipe gdbi.InPipe, nworkers int) chan []byte {
@@ -21,6 +22,7 @@ func MarshalStream(inPipe gdbi.InPipe, nworkers int) chan []byte {
 			defer close(out)
 			for t := range in {
 				b, _ := json.Marshal(t)
+				verifhook.Point("marshal.worker")
 				out <- b
 			}
 		}(toWorkers[i], fromWorkers[i])
@@ -74,6 +76,7 @@ func UnmarshalStream(inPipe chan []byte, nworkers int) chan gdbi.Traveler {
 			for t := range in {
 				b := &gdbi.BaseTraveler{}
 				json.Unmarshal(t, b)
+				verifhook.Point("unmarshal.worker")
 				out <- b
 			}
 		}(toWorkers[i], fromWorkers[i])
